@@ -4,6 +4,7 @@
 // route f  = ST::format(fmt, args…)                 (default validation)
 //       fv = ST::format(validation m, fmt, args…)
 //       l1 = ST::format_latin_1(fmt, args…)
+//       udl = "fmt"_stfmt(args…) (the user-defined literal: ST::format under the default validation)
 //       ev = ST::apply_format(recording format_writer, args…): the exact sequence of sink calls
 // args: i8 i16 i32 il ill u8 u16 u32 ul ull c wc c8 c16 c32 b (":"value, decimal), cs S ss sv (":"hex bytes:
 //       const char*, ST::string, std::string, std::string_view), cn (null const char*), d fl (":"IEEE bits hex),
@@ -145,6 +146,7 @@ template <class... A> static std::string call_route(const std::string &route, co
         return "ok " + (w.log.empty() ? std::string("-") : w.log);
     }
     if (route == "l1") return show(ST::format_latin_1(f, a...));
+    if (route == "udl") return show(ST::literals::operator"" _stfmt(f, f ? strlen(f) : 0)(a...));      // "…"_stfmt(args…)
     if (route == "fv") return show(ST::format(m == "a" ? ST::assume_valid : m == "s" ? ST::substitute_invalid : ST::check_validity, f, a...));
     return show(ST::format(f, a...));
 }
@@ -270,7 +272,8 @@ struct Gen {
     }
     void route_of(uint64_t h, std::string &route, std::string &m) {
         h = (h + 0x9E3779B97F4A7C15ULL) * 0xBF58476D1CE4E5B9ULL; h ^= h >> 31;     // decorrelate from the callers' sampling
-        switch (h % 6) {
+        switch (h % 7) {
+        case 6: route = "udl"; m = "c"; break;
         case 0: route = "f"; m = "c"; break;
         case 1: case 2: route = "ev"; m = "c"; break;
         case 3: route = "fv"; m = "s"; break;
